@@ -186,7 +186,15 @@ INNER = {
     'scd-irt-other': (dict(confirmations='irt:req3'), True, None, 'unsolicited'),
     'scd-irt-unknown': (dict(confirmations='irt:nobody'), True, None, 'unsolicited'),
     'wrong-issuer-key': (dict(issuer=world.IDP_B), True, None, 'signature-invalid'),
+    # confirmations that say nothing / something else about the request: whatever the plain form gets, the encrypted
+    # form gets (differential clause)
+    'scd-bearer-without-irt': (dict(confirmations='noirt'), True, None, None),
+    'scd-sender-vouches-irt-other': (dict(confirmations='sv:req3'), True, None, None),
+    'scd-sender-vouches-irt-unknown+bearer-ok': (dict(confirmations='sv:nobody+bearer'), True, None, None),
+    'scd-holder-of-key-irt-other': (dict(confirmations='hok:req3'), True, None, None),
 }
+SV = 'urn:oasis:names:tc:SAML:2.0:cm:sender-vouches'
+HOK = 'urn:oasis:names:tc:SAML:2.0:cm:holder-of-key'
 
 
 def build_inner(name):
@@ -198,6 +206,13 @@ def build_inner(name):
         akw['confirmations'] = [forge.confirmation(now, nooa=-10)]
     elif conf and conf.startswith('irt:'):
         akw['confirmations'] = [forge.confirmation(now, irt=conf[4:])]
+    elif conf == 'noirt':
+        akw['confirmations'] = [forge.confirmation(now, irt=None)]
+    elif conf and conf.startswith('sv:'):
+        irt = conf[3:].split('+')[0]
+        akw['confirmations'] = [forge.confirmation(now, method=SV, irt=irt)] + ([forge.confirmation(now)] if conf.endswith('+bearer') else [])
+    elif conf and conf.startswith('hok:'):
+        akw['confirmations'] = [forge.confirmation(now, method=HOK, irt=conf[4:])]
     return akw, signed, mut
 
 
